@@ -1,4 +1,7 @@
-(* C18 model: AlleleResolver (singlecellmultiomics/alleleTools/alleleTools.py), REPAIRED behaviour
+(* T: the machine below is written WITH the definitions g_* of Gen/GenAlleles.v, regenerated from the current source on
+   every run (tools/c18.py, regen_alleles); the specification part uses hand-written reference definitions only;
+   Proofs/C18_s.v connects the two (shape lemmas).
+   C18 model: AlleleResolver (singlecellmultiomics/alleleTools/alleleTools.py), REPAIRED behaviour
    (fixes/C18-D24, C18-D25, C18-D26).  Definitions only.
 
    strings        = list Z (code points);  python set of str = strictly sorted list (sorted() is then the identity)
@@ -10,7 +13,7 @@
    VCFs without sample columns, the sentinel stored under the key None by the eager load of all contigs. *)
 From Coq Require Import ZArith List Bool.
 Import ListNotations.
-From SCMO Require Import Lib.Val.
+From SCMO Require Import Lib.Val Gen.GenAlleles.
 Open Scope Z_scope.
 
 Definition str := list Z.
@@ -91,6 +94,22 @@ Record cfg := { c_phased : bool; c_select : option (list str); c_ignore : option
 Definition single (a : str) : bool := match a with [_] => true | _ => false end.   (* len(base) == 1 *)
 Definition selected (cf : cfg) (s : str) : bool :=
   match c_select cf with None => true | Some l => smem s l end.
+(* ---- the same tests as the current source writes them *)
+Definition is_some {A} (o : option A) : bool := match o with Some _ => true | None => false end.
+Definition sel_list (cf : cfg) : list str := match c_select cf with Some l => l | None => [] end.
+Definition ign_list (a : option (list (str * str))) : list (str * str) := match a with Some l => l | None => [] end.
+Definition gsingle (a : str) : bool := g_single (Z.of_nat (length a)).                  (* len(base) == 1 *)
+Definition gusingle (a : str) : bool := g_unphased_single (Z.of_nat (length a)).        (* len(allele) == 1 *)
+Definition gselected (cf : cfg) (s : str) : bool :=
+  negb (g_select_skip (is_some (c_select cf)) (smem s (sel_list cf))).
+(* `continue` / `break` on a missing allele *)
+Fixpoint upto_none (l : list (option str)) : list (option str) :=
+  match l with
+  | [] => []
+  | None :: _ => [None]
+  | a :: t => a :: upto_none t
+  end.
+Definition alleles_seen (l : list (option str)) : list (option str) := if g_missing_break then upto_none l else l.
 
 (* ---- phased branch of fetchChromosome: the loops over rec.samples.items() and sampleData.alleles *)
 Record scan := { s_bm : bmap; s_used : bool; s_assigned : list str; s_mono : bool; s_bad : bool }.
@@ -99,33 +118,28 @@ Definition scan_allele (sample : str) (st : scan) (a : option str) : scan :=
   match a with
   | None => {| s_bm := s_bm st; s_used := s_used st; s_assigned := s_assigned st; s_mono := true; s_bad := s_bad st |}
   | Some b =>
-      if single b
+      if gsingle b
       then {| s_bm := badd (s_bm st) b sample; s_used := true; s_assigned := sins sample (s_assigned st);
               s_mono := s_mono st; s_bad := s_bad st |}
       else {| s_bm := s_bm st; s_used := s_used st; s_assigned := s_assigned st; s_mono := s_mono st; s_bad := true |}
   end.
 Definition scan_sample (cf : cfg) (st : scan) (g : str * list (option str)) : scan :=
-  if selected cf (fst g) then fold_left (scan_allele (fst g)) (snd g) st else st.
+  if gselected cf (fst g) then fold_left (scan_allele (fst g)) (alleles_seen (snd g)) st else st.
 Definition scan_rec (cf : cfg) (r : vrec) : scan := fold_left (scan_sample cf) (r_gts r) scan0.
 
 Definition phased_site (cf : cfg) (r : vrec) : bmap * bool * bool :=   (* (bases_to_alleles, used, bad) *)
   let st := scan_rec cf r in
-  let bad1 := match c_select cf with
-              | Some sel => if s_used st
-                            then (if (length (s_assigned st) =? length sel)%nat then s_bad st else true)
-                            else s_bad st
-              | None => s_bad st
-              end in
-  let bad2 := if s_mono st && (0 <? length (s_bm st))%nat then false
-              else if (length (s_bm st) <? 2)%nat then true else bad1 in
-  (s_bm st, s_used st, bad2).
+  (s_bm st, s_used st,
+   g_bad_after (is_some (c_select cf)) (s_used st) (Z.of_nat (length (s_assigned st))) (Z.of_nat (length (sel_list cf)))
+               (s_mono st) (Z.of_nat (length (s_bm st))) (s_bad st)).
 
 (* ---- unphased branch: zip('UVWXYZ', rec.alleles) *)
 Definition letters : list str := [[85]; [86]; [87]; [88]; [89]; [90]].
 Definition alleles (r : vrec) : list str := r_ref r :: r_alts r.
+Definition gletters : list str := map (fun c => [c]) g_letters.
 Definition unphased_site (r : vrec) : bmap * bool * bool :=
-  if forallb single (alleles r)
-  then (fold_left (fun m lb => badd m (snd lb) (fst lb)) (combine letters (alleles r)) [], true, false)
+  if forallb gusingle (alleles r)
+  then (fold_left (fun m lb => badd m (snd lb) (fst lb)) (combine gletters (alleles r)) [], true, false)
   else ([], false, true).
 
 Definition pair_mem (a b : str) (l : list (str * str)) : bool :=
@@ -136,22 +150,25 @@ Definition ignored (cf : cfg) (r : vrec) (bm : bmap) : bool :=
   | Some l => existsb (fun kv => pair_mem (r_ref r) (fst kv) l) bm
   end.
 
+(* if <guard>: bad = any((rec.ref, base) in self.ignore_conversions for base in bases_to_alleles) *)
+Definition ignored_any (cf : cfg) (r : vrec) (bm : bmap) : bool :=
+  existsb (fun kv => let k := g_ignore_key (r_ref r) (fst kv) in pair_mem (fst k) (snd k) (ign_list (c_ignore cf))) bm.
 (* the base->samples dict stored for a record, or None when the record is skipped *)
 Definition informative (cf : cfg) (r : vrec) : option bmap :=
   let '(bm, used, bad) := if c_phased cf then phased_site cf r else unphased_site r in
-  let bad' := if bad then true else ignored cf r bm in
-  if used && negb bad' then Some bm else None.
+  let bad' := if g_ignore_guard bad (is_some (c_ignore cf)) then ignored_any cf r bm else bad in
+  if g_store used bad' then Some bm else None.
 
 Definition load_recs (cf : cfg) (recs : list vrec) (t : table) : table :=
   fold_left (fun t r => match informative cf r with
-                        | Some bm => store t (r_chrom r) (r_pos r - 1) bm
+                        | Some bm => store t (r_chrom r) (g_store_pos (r_pos r)) bm
                         | None => t end) recs t.
 
 (* self.locationToAllele[chrom][-1]['N'].add('Nop') *)
 Definition str_N : str := [78].
 Definition str_Nop : str := [78; 111; 112].
 Definition add_sentinel (t : table) (c : str) : table :=
-  store t c (-1) (badd (getd Z.eqb (getd seqb t c) (-1)) str_N str_Nop).
+  store t c g_sentinel_pos (badd (getd Z.eqb (getd seqb t c) g_sentinel_pos) g_sentinel_base g_sentinel_name).
 
 Definition valid_contig (v : vcf) (c : str) : bool := smem c (v_contigs v).
 Definition recs_of (v : vcf) (c : str) : list vrec := filter (fun r => seqb (r_chrom r) c) (v_recs v).
@@ -178,7 +195,8 @@ Definition s_chrUn : str := [99; 104; 114; 85; 110].
 Definition s_random : str := [95; 114; 97; 110; 100; 111; 109].
 Definition s_ERCC : str := [69; 82; 67; 67].
 Definition cacheable (c : str) : bool :=
-  negb (prefixb s_KN c || prefixb s_KZ c || prefixb s_chrUn c || suffixb s_random c || infixb s_ERCC c).
+  negb (existsb (fun rule => if fst rule =? 0 then prefixb (snd rule) c
+                             else if fst rule =? 1 then suffixb (snd rule) c else infixb (snd rule) c) g_nocache_rules).
 
 Fixpoint join (sep : Z) (l : list str) : str :=
   match l with
@@ -186,17 +204,21 @@ Fixpoint join (sep : Z) (l : list str) : str :=
   | [x] => x
   | x :: l' => x ++ sep :: join sep l'
   end.
-Definition s_unphased : str := [95; 117; 110; 112; 104; 97; 115; 101; 100].          (* "_unphased" *)
-Definition s_ignore : str := [95; 105; 103; 110; 111; 114; 101; 45].                  (* "_ignore-" *)
-Definition s_to : str := [116; 111].                                                  (* "to" *)
-Definition s_tsvgz : str := [46; 116; 115; 118; 46; 103; 122].                        (* ".tsv.gz" *)
+Fixpoint joins (sep : str) (l : list str) : str :=
+  match l with
+  | [] => []
+  | [x] => x
+  | x :: l' => x ++ sep ++ joins sep l'
+  end.
 Definition cache_name (cf : cfg) (c : str) : str :=
-  c ++ (match c_select cf with Some sel => 95 :: join 45 (ssort sel) | None => [] end)
-    ++ (if c_phased cf then [] else s_unphased)
-    ++ (match c_ignore cf with
-        | Some (q :: l) => s_ignore ++ join 45 (ssort (map (fun ab => fst ab ++ s_to ++ snd ab) (q :: l)))
-        | _ => [] end)
-    ++ s_tsvgz.
+  let n := c in
+  let n := match c_select cf with Some sel => g_name_sel n (joins g_name_sel_join (ssort sel)) | None => n end in
+  let n := if c_phased cf then n else n ++ g_name_unphased in
+  let n := match c_ignore cf with
+           | Some (q :: l) => n ++ (g_name_ignore_prefix
+                                    ++ joins g_name_ignore_join (ssort (map (fun ab => g_name_conv (fst ab) (snd ab)) (q :: l))))
+           | _ => n end in
+  n ++ g_name_suffix.
 
 (* f'{position}' and int(position) *)
 Fixpoint digits (u : Decimal.uint) : str :=
@@ -237,7 +259,7 @@ Definition parse_int0 (s : str) : option Z :=
 
 (* write_cache: for position in sorted(keys): for base in dict: f'{position}\t{base}\t{",".join(sorted(samples))}\n' *)
 Definition line_of (p : Z) (kv : str * list str) : str :=
-  print_int p ++ 9 :: fst kv ++ 9 :: join 44 (snd kv) ++ [10].
+  g_line (print_int p) (fst kv) (join g_sample_join (snd kv)).
 Definition serialise (ct : ctable) : str :=
   concat (flat_map (fun p => map (line_of p) (getd Z.eqb ct p)) (zsort (map fst ct))).
 
@@ -280,9 +302,9 @@ Fixpoint lines_of (s : str) : list str :=
 (* position, base, samples = line.strip().split('\t', 3); int(position); set(samples.split(',')) ;
    None = ValueError (wrong number of fields / not an integer) *)
 Definition parse_line (l : str) : option (Z * str * list str) :=
-  match split_on 9 (strip l) with
+  match split_on g_field_sep (strip l) with
   | [ps; b; ss] => match parse_int ps with
-                   | Some p => Some (p, b, fold_right sins [] (split_on 44 ss))
+                   | Some p => Some (p, b, fold_right sins [] (split_on g_sample_split ss))
                    | None => None end
   | _ => None
   end.
@@ -291,7 +313,10 @@ Fixpoint read_lines (ls : list str) (c : str) (t : table) : table :=
   match ls with
   | [] => t
   | l :: ls' => match parse_line l with
-                | Some (p, b, ss) => read_lines ls' c (store3 t c p b ss)
+                | Some (p, b, ss) =>
+                    if g_read_skip false p 0 then read_lines ls' c t           (* region_start is None *)
+                    else if g_read_stop false p 0 then t                       (* region_end is None *)
+                    else read_lines ls' c (store3 t c p b ss)
                 | None => t end
   end.
 Definition read_cached (content : str) (c : str) (t : table) : table := read_lines (lines_of (unl content)) c t.
@@ -300,7 +325,8 @@ Definition read_cached (content : str) (c : str) (t : table) : table := read_lin
 Inductive query := QGet (c : str) (p : Z) (b : str) | QHas (c : str) (p : Z).
 Inductive answer := ANone | ASome (ss : list str) | ABool (b : bool) | ARaise.
 
-Definition is_lazy (cf : cfg) : bool := c_lazy cf || c_cache cf.     (* D24 repaired *)
+Definition is_lazy (cf : cfg) : bool := c_lazy cf || c_cache cf.     (* the constructor's local lazyLoad *)
+Definition self_lazy (cf : cfg) : bool := c_lazy cf || (g_cache_forces_lazy && c_cache cf).   (* self.lazyLoad *)
 
 (* fetchChromosome(self.vcffile, c, clear=True) *)
 Definition fetch_lazy (v : vcf) (cf : cfg) (fs : fsys) (c : str) : table * fsys :=
@@ -314,7 +340,13 @@ Definition fetch_lazy (v : vcf) (cf : cfg) (fs : fsys) (c : str) : table * fsys 
   end.
 
 Definition ensure (v : vcf) (cf : cfg) (st : table * fsys) (c : str) : table * fsys :=
-  if is_lazy cf && negb (amem seqb (fst st) c) then fetch_lazy v cf (snd st) c else st.
+  if self_lazy cf && negb (amem seqb (fst st) c) then fetch_lazy v cf (snd st) c else st.
+(* the lazy fetch of this call ends in ValueError('invalid contig') *)
+Definition fetch_raises (v : vcf) (cf : cfg) (st : table * fsys) (c : str) : bool :=
+  self_lazy cf && negb (amem seqb (fst st) c)
+  && match (if c_cache cf && cacheable c then aget seqb (snd st) (cache_name cf c) else None) with
+     | Some _ => false
+     | None => negb (valid_contig v c) end.
 
 Definition answer_get (t : table) (c : str) (p : Z) (b : str) : answer :=
   match lookup2 t c p with
@@ -327,7 +359,8 @@ Definition answer_has (t : table) (c : str) (p : Z) : answer :=
 Definition step (v : vcf) (cf : cfg) (st : table * fsys) (q : query) : (table * fsys) * answer :=
   match q with
   | QGet c p b => let st' := ensure v cf st c in (st', answer_get (fst st') c p b)
-  | QHas c p => let st' := ensure v cf st c in (st', answer_has (fst st') c p)
+  | QHas c p => let st' := ensure v cf st c in
+                (st', if fetch_raises v cf st c then ABool g_has_invalid_contig else answer_has (fst st') c p)
   end.
 
 Fixpoint run_queries (v : vcf) (cf : cfg) (st : table * fsys) (qs : list query) : fsys * list answer :=
@@ -444,7 +477,6 @@ Definition sel_same (a b : option (list str)) : bool :=
   | Some l1, Some l2 => (length l1 =? length l2)%nat && forallb (fun s => smem s l2) l1 && forallb (fun s => smem s l1) l2
   | _, _ => false
   end.
-Definition ign_list (a : option (list (str * str))) : list (str * str) := match a with Some l => l | None => [] end.
 Definition ign_same (a b : option (list (str * str))) : bool :=
   forallb (fun q => pair_mem (fst q) (snd q) (ign_list b)) (ign_list a)
   && forallb (fun q => pair_mem (fst q) (snd q) (ign_list a)) (ign_list b).
